@@ -283,5 +283,8 @@ def run(ctx, cases_override=None):
 
 
 def replay(ctx, path):
+    """Re-run one recorded case for its verdict line. A replay is not a tier run: it writes no evidence (the counts of a
+    one-case run would not describe an exploration, and the evidence file keeps describing the last quick/thorough run)."""
     v = json.load(open(path))
+    os.environ["VERIF_NO_EVIDENCE"] = "1"
     return run(ctx, cases_override=[v["case"]])
